@@ -13,7 +13,7 @@ pub fn spec() -> PropSpec {
     PropSpec {
         id: "C04",
         level: "exploration",
-        rule: "generated intact DF11 (IC 0..127) / DF17 / DF18 frames x error patterns confined to bits 6..len: every 1-bit and 2-bit error, every burst of length <= 24 (all inner patterns up to length 10, generated above), generated patterns of weight 3..20; each corrupted frame arrives after a generated prefix history that already contains the aircraft. An independent CRC-24 decides whether the corrupted frame is still parity-valid (then it is excluded and counted); otherwise the table (all fields, time stamps included) must be identical before and after. Corrupted frames are fed in batches and a changed table is bisected to one frame. Positive control per base frame: the intact frame and a DF11 with IC != 0 must be applied. Non-trivial = corrupted frame the reference rejects, distinct by (base frame, pattern)",
+        rule: "generated intact DF11 (IC 0..127) / DF17 / DF18 frames x error patterns confined to bits 6..len: every 1-bit and 2-bit error, every burst of length <= 24 (all inner patterns up to length 10, generated above), generated patterns of weight 3..20; each corrupted frame arrives after a generated prefix history that already contains the aircraft. An independent CRC-24 decides whether the corrupted frame is still parity-valid (then it is excluded and counted); otherwise the table (all fields, time stamps included) must be identical before and after. Corrupted frames are fed in batches and a changed table is bisected to one frame. A wide layer adds thousands of further base frames (dense and sparse payloads) with every 1-bit error each, 64 bases per reader run on a table holding their rows. Positive control per base frame: the intact frame and a DF11 with IC != 0 must be applied. Non-trivial = corrupted frame the reference rejects, distinct by (base frame, pattern)",
         assumptions: &["reference CRC-24 (generator 0x1FFF409); DF11 accepted iff upper 17 remainder bits are 0"],
         workers: 16,
         also_nochk: false,
@@ -271,8 +271,72 @@ fn run(c: &mut Ctx) {
             }
         }
     }
+    if !c.failed() {
+        wide_single_bit_layer(c);
+    }
     if c.tier == crate::ctx::Tier::Thorough || true {
         c.exhaustive("per base frame: all 1-bit and 2-bit errors and all bursts up to length 10 over bits 6..len");
+    }
+}
+
+/// Wide and shallow: many base frames (sparse payloads with runs of zero bytes as well as dense ones), every 1-bit error
+/// of each, 64 bases per reader run on a table that already holds the intact frames' rows. A remainder routine with a
+/// data-dependent shortcut is wrong for a small share of *frames*, which the deep layer's few dozen bases cannot sample.
+fn wide_single_bit_layer(c: &mut Ctx) {
+    let n = c.tier.pick(10_000usize, 150_000usize); // per worker
+    let sparse = (gen::addr(), 0u32..8, any::<u64>(), any::<u64>(), any::<u64>(), 0u32..32, prop_oneof![Just(17u32), Just(18u32)]).prop_map(|(a, ca, x, y, z, tc, df)| {
+        let me = (x & y & z & ((1u64 << 51) - 1)) | ((tc as u64) << 51);
+        bits::es(df, ca, a, me)
+    });
+    let strat = prop_oneof![3 => base_frame(), 3 => sparse.boxed()];
+    let bases = c.draw(n, strat);
+    let opts = Opts::quiet();
+    for group in bases.chunks(64) {
+        // distinct addresses only (two bases of one aircraft would make the intact prefix order-dependent, not wrong, but keep it simple)
+        let mut seen = std::collections::BTreeSet::new();
+        let group: Vec<Frame> = group.iter().filter(|f| f.address() != 0 && seen.insert(f.address())).cloned().collect();
+        let prefix: Vec<Step> = group.iter().map(|f| Step { ac: 0, frame: *f, dt: 0 }).collect();
+        // positive control: every intact frame has its row
+        match prepare(&opts, &prefix) {
+            Err(m) => {
+                c.fail(m, "c04:control", json!({"kind":"control","opts":opts,"base":group[0]}));
+                return;
+            }
+            Ok(t) => {
+                let snap = run::snapshot(&t);
+                if let Some(b) = group.iter().find(|f| !snap.contains_key(&f.address())) {
+                    c.fail(format!("intact DF{} frame {} (remainder {:06X}) was not applied", b.df(), b.hex(), b.syndrome()), "c04:control", json!({"kind":"control","opts":opts,"base":b}));
+                    return;
+                }
+            }
+        }
+        let mut reject = Vec::with_capacity(group.len() * 107);
+        for b in &group {
+            for bit in 6..=b.len {
+                let f = apply_mask(b, 1u128 << (b.len - bit));
+                if parity_ok(&f) {
+                    c.excluded("corrupted frame is still parity-valid by the reference (error inside the IC bits / undetectable pattern)");
+                    continue;
+                }
+                reject.push(f);
+            }
+        }
+        c.eval(reject.len() as u64);
+        c.class_n("wide_single_bit", reject.len() as u64);
+        c.nontrivial_enumerated(reject.len() as u64);
+        if unchanged_after(&opts, &prefix, &reject).is_err() {
+            let (culprit, msg) = bisect(&opts, &prefix, &reject);
+            let base = group.iter().find(|b| b.len == culprit.len && (b.bits ^ culprit.bits).count_ones() == 1).cloned().unwrap_or(group[0]);
+            let mask = culprit.bits ^ base.bits;
+            let pf: Vec<Step> = vec![Step { ac: 0, frame: base, dt: 0 }];
+            let pf = if unchanged_after(&opts, &pf, &[culprit]).is_err() { pf } else { prefix.clone() };
+            c.fail(
+                format!("DF{} frame {} (intact {} with error pattern {:X}) fails the parity check (remainder {:06X}) but changed the table: {}", culprit.df(), culprit.hex(), base.hex(), mask, culprit.syndrome(), msg),
+                "c04:applied",
+                json!({"kind":"corrupt","opts":opts,"prefix":pf,"base":base,"mask":format!("{:X}", mask)}),
+            );
+            return;
+        }
     }
 }
 
